@@ -403,6 +403,27 @@ pub fn run(rng: &mut Rng, tier: &str, out: &str) -> Report {
                             rep.fail(&["C07"], "hist|at-vs-fork", "reads at heads differ from reads of fork_at(heads)",
                                 json!({"universe": ui, "log": u.log, "heads": hs.iter().map(|h| hex(&h.0)).collect::<Vec<_>>()}));
                         }
+                        // the wider set of reads: range iterators, values, point reads, text, parents
+                        match (guard(|| render_reads(&all, &cands, Some(&hs))), guard(|| render_reads(&f, &cands, None))) {
+                            (Ok(a), Ok(b)) => {
+                                if a != b {
+                                    rep.fail(&["C07"], "hist|at-vs-fork-reads", "range / values / get / text / parents reads at heads differ from the same reads of fork_at(heads)",
+                                        json!({"universe": ui, "log": u.log, "heads": hs.iter().map(|h| hex(&h.0)).collect::<Vec<_>>(),
+                                               "first_difference": a.lines().zip(b.lines()).find(|(x, y)| x != y).map(|(x, y)| format!("at: {} | fork: {}", x, y))}));
+                                }
+                            }
+                            (Err(p), _) | (_, Err(p)) => rep.fail(&["C07", "C37"], &format!("panic|read_at|{}", p.signature()), &format!("a historical read panicked: {}", p.message),
+                                json!({"universe": ui, "log": u.log, "doc": hex(&all.save()), "heads": hs.iter().map(|h| hex(&h.0)).collect::<Vec<_>>()})),
+                        }
+                        // hydrate at heads
+                        match (guard(|| render_hydrate(&all.hydrate(Some(&hs)))), guard(|| render_hydrate(&f.hydrate(None)))) {
+                            (Ok(a), Ok(b)) => {
+                                if a != b {
+                                    rep.fail(&["C07"], "hist|at-vs-fork-hydrate", "hydrate(heads) differs from hydrate of fork_at(heads)", json!({"universe": ui, "log": u.log, "at": a, "fork": b}));
+                                }
+                            }
+                            (Err(p), _) | (_, Err(p)) => rep.fail(&["C07", "C37"], &format!("panic|hydrate|{}", p.signature()), &format!("hydrate panicked: {}", p.message), json!({"universe": ui, "log": u.log})),
+                        }
                         if sorted_hashes(f.get_heads()) != hs {
                             rep.fail(&["C07"], "hist|fork-heads", "fork_at(heads).get_heads() != heads",
                                 json!({"universe": ui, "log": u.log}));
